@@ -430,6 +430,12 @@ func genGatewayWorld(seed uint64, tier string, xns bool) *RunConfig {
 	mn, mx := tierOps(tier, 4, 16)
 	nops := mn + g.pick(mx-mn+1)
 	for i := 0; i < nops; i++ {
+		if xns && g.chance(1, 6) {
+			// the users of a basic authentication secret change
+			ns := g.of("a", "b")
+			rc.Ops = append(rc.Ops, applyOp(mkOpaqueSecret(ns, "auth", map[string][]byte{"auth": []byte(fmt.Sprintf("usr%s::clear%d\n", ns, g.next()))}), "rotate users"))
+			continue
+		}
 		if xns && g.chance(1, 5) {
 			// the permission is granted or revoked while the controller runs
 			global["cross-namespace-secrets-passwd"] = g.of("allow", "deny", "deny")
